@@ -200,3 +200,50 @@ Lemma source_registry :
   (forall a s, Inv s -> BT s -> dereg_run a gen_deregister_order s = deregister a s) /\
   (forall c keep s, Inv s -> create_stmts gen_register_order c keep s = create1 c keep s).
 Proof. repeat split; [exact dereg_run_bridge|exact create_stmts_bridge]. Qed.
+
+(* ------------------------------------------------------------------ GroupBy.do / map: the group loop *)
+Lemma gvisit_bridge ex k sc inner inner_is_str :
+  fn_ok k inner = true ->
+  forall gs perms s,
+    gvisit true (fun perm snap s' => run_fn ex sc inner inner_is_str perm snap s') gs perms s
+    = visit_groups ex k sc gs perms s.
+Proof.
+  intros Hok. induction gs as [|[key g] gs IH]; intros perms s; [reflexivity|].
+  cbn [gvisit visit_groups]. rewrite (run_fn_bridge ex k inner Hok).
+  destruct (activate ex k (hd [] perms) sc (filter (alive s) g) s) as [[[s1 log1] rz1]|]; [|reflexivity].
+  destruct rz1; [reflexivity|]. rewrite IH. reflexivity.
+Qed.
+
+Lemma gfn_ok_facts is_map gf :
+  gfn_ok is_map gf = true ->
+  forall is_str, al_src (pick gf is_str) = SrcGroups /\ al_guard (pick gf is_str) true = true.
+Proof.
+  unfold gfn_ok. rewrite !andb_true_iff. intros [[Ht Hf] _] is_str.
+  assert (gloop_ok is_str (pick gf is_str) = true) as Hl by (destruct is_str; assumption).
+  unfold gloop_ok in Hl. rewrite !andb_true_iff in Hl. destruct Hl as [[[[H1 H2] _] _] _].
+  split; [destruct (al_src (pick gf is_str)); try discriminate; reflexivity|exact H2].
+Qed.
+
+(* the translated GroupBy.do / map, with `method` naming a translated AgentSet method, run on the model
+   state, is the model's visit_groups *)
+Lemma run_gfn_bridge ex k sc is_map gf inner :
+  gfn_ok is_map gf = true -> fn_ok k inner = true ->
+  forall is_str inner_is_str gs perms s,
+    run_gfn ex sc gf is_str inner inner_is_str gs perms s = visit_groups ex k sc gs perms s.
+Proof.
+  intros Hg Hi is_str inner_is_str gs perms s. unfold run_gfn.
+  destruct (gfn_ok_facts is_map gf Hg is_str) as [-> ->].
+  apply gvisit_bridge. exact Hi.
+Qed.
+
+Lemma source_groupby_is_visit_groups k f :
+  In (k, f) source_fns ->
+  forall ex sc is_str inner_is_str gs perms s,
+    run_gfn ex sc gen_groupby_do_fn is_str f inner_is_str gs perms s = visit_groups ex k sc gs perms s /\
+    run_gfn ex sc gen_groupby_map_fn is_str f inner_is_str gs perms s = visit_groups ex k sc gs perms s.
+Proof.
+  intros H ex sc is_str inner_is_str gs perms s.
+  pose proof source_groupby_ok as Hg. rewrite !andb_true_iff in Hg. destruct Hg as [[Hd Hm] _].
+  split; [apply (run_gfn_bridge ex k sc false)|apply (run_gfn_bridge ex k sc true)];
+    try assumption; apply source_fn_ok; exact H.
+Qed.
